@@ -30,7 +30,8 @@ LEAN_MODULES = ["PySMT.Props.C16"]
 RULE = ("ALL command sequences up to a length bound over {assert fresh|repeated, assert-soft id ''|'x', push 0|1|2, "
         "pop 0|1|2, reset-assertions, check-sat, maximize} (scripts; legal ones and those whose LAST command is an "
         "illegal pop) and {add_assertion, push 0|1|2, pop 0|1|2, reset_assertions, solve, is_sat, is_valid, is_unsat, "
-        "solve([f]), read assertions} (solvers), plus seeded random sequences of length 8-60 with all four objective "
+        "solve([f]), read assertions, is_sat / is_valid / solve whose native check raises unknown, is_sat whose add_assertion "
+        "raises} (solvers), plus seeded random sequences of length 8-60 with all four objective "
         "kinds, :signed, weights, three soft ids.  Non-trivial = a pop/reset actually removed an item, a soft id was "
         "reused, or (solvers) a one-shot query was followed by another call.")
 ASSUMPTIONS = [
@@ -38,7 +39,7 @@ ASSUMPTIONS = [
     "the native solver behind the proxies is an ideal SMT-LIB assertion stack (played by a strict stack object in the harness)",
     "formulas, weights, objectives are opaque to the bookkeeping (the harness uses Boolean symbols and their negations; is_valid is given atoms, because FormulaManager.Not collapses double negation)",
     "_last_command/_last_result of IncrementalTrackingSolver are not part of the property",
-    "the native check itself does not raise (SolverReturnedUnknownResultError etc. are not modelled)",
+    "exceptions of the native solver are modelled for the check (SolverReturnedUnknownResultError) and for asserting the formula of a one-shot query; the client catches them and goes on using the solver",
 ]
 
 # --------------------------------------------------------------------------------------------- spec oracle
@@ -243,6 +244,8 @@ class PySide(object):
         from pysmt.solvers.options import SolverOptions
         from pysmt.decorators import clear_pending_pop
         from pysmt.logics import QF_BOOL
+        from pysmt.exceptions import SolverReturnedUnknownResultError, ConvertExpressionError
+        self.expected_exc = (SolverReturnedUnknownResultError, ConvertExpressionError)
         dAdd, dPush, dPop, dReset, dSolve, dRead, tracking, native, pushsup = (ch == "1" for ch in cfg)
         fid = self.fid
 
@@ -255,6 +258,9 @@ class PySide(object):
 
         # the native solver: an SMT-LIB assertion stack that refuses to pop its base level
         def n_add(self, formula, named=None):
+            if self.fail_add:
+                self.fail_add = False
+                raise ConvertExpressionError(message="harness: this formula cannot be asserted", expression=formula)
             if native:
                 self.nat[-1].append(fid[formula])
             return formula
@@ -283,6 +289,9 @@ class PySide(object):
             else:
                 seen = [fid[x] for x in self._assertion_stack]
             self.log.append(seen + [fid[x] for x in (assumptions or [])])
+            if self.fail_solve:
+                self.fail_solve = False
+                raise SolverReturnedUnknownResultError()
             return True
 
         if tracking:
@@ -294,6 +303,7 @@ class PySide(object):
                     IncrementalTrackingSolver.__init__(self, env, QF_BOOL)
                     self.nat = [[]]
                     self.log = []
+                    self.fail_add = self.fail_solve = False
                 _add_assertion = deco(dAdd, n_add)
                 _push = deco(dPush, n_push)
                 _pop = deco(dPop, n_pop)
@@ -317,6 +327,7 @@ class PySide(object):
                     Solver.__init__(self, env, QF_BOOL)
                     self.nat = [[]]
                     self.log = []
+                    self.fail_add = self.fail_solve = False
                 add_assertion = deco(dAdd, n_add)
                 push = deco(dPush, n_push)
                 pop = deco(dPop, n_pop)
@@ -345,6 +356,7 @@ class PySide(object):
         out, reads = [], []
         form = self.form
         for i, t in enumerate(toks):
+            raised = False
             try:
                 k = t[0]
                 if k == "a":
@@ -359,17 +371,34 @@ class PySide(object):
                     s.solve()
                 elif k == "g":
                     reads.append((i, [self.fid[x] for x in s.assertions]))
-                elif k == "q":
+                elif k in "qxy":
                     f = form[int(t[2:])]
                     q = t[1]
-                    if q == "s":
-                        s.is_sat(f)
-                    elif q == "v":
-                        s.is_valid(f)
-                    elif q == "u":
-                        s.is_unsat(f)
-                    else:
-                        s.solve([f])
+                    # x: the native check of this call raises "unknown"; y: asserting its formula raises
+                    s.fail_solve, s.fail_add = (k == "x"), (k == "y")
+                    try:
+                        if q == "s":
+                            s.is_sat(f)
+                        elif q == "v":
+                            s.is_valid(f)
+                        elif q == "u":
+                            s.is_unsat(f)
+                        else:
+                            s.solve([f])
+                    except self.expected_exc:
+                        if k == "q":
+                            raise
+                        raised = True
+                    finally:
+                        s.fail_solve = s.fail_add = False
+                elif k == "S":
+                    s.fail_solve = True
+                    try:
+                        s.solve()
+                    except self.expected_exc:
+                        raised = True
+                    finally:
+                        s.fail_solve = False
                 else:
                     raise ValueError(t)
             except NativeError:
@@ -384,7 +413,7 @@ class PySide(object):
             except Exception as e:              # anything else is an outcome of its own (never swallowed)
                 out.append("err " + type(e).__name__)
                 break
-            out.append(self.snapshot(s, tracking))
+            out.append(self.snapshot(s, tracking) + ("!" if raised else ""))
         return out, reads, s
 
 
@@ -404,7 +433,9 @@ def py():
 
 # --------------------------------------------------------------------------------------------- enumeration
 SCRIPT_ALPHA = ["A", "B", "S0", "S1", "u0", "u1", "u2", "p0", "p1", "p2", "r", "c", "O"]
-TRACK_ALPHA = ["A", "u0", "u1", "u2", "p0", "p1", "p2", "r", "s", "QS", "QV", "QU", "QA", "g"]
+TRACK_ALPHA = ["A", "u0", "u1", "u2", "p0", "p1", "p2", "r", "s", "QS", "QV", "QU", "QA", "g",
+               "XS", "XV", "YS", "SX"]      # queries that raise: check of is_sat / is_valid, assertion of is_sat's formula, solve()
+FAILING = ["XS", "XV", "YS", "SX"]
 
 
 def track_alpha(cfg):
@@ -426,6 +457,12 @@ def instantiate(sym, pos):
         return "o%d" % (8 * pos)
     if sym in ("QS", "QV", "QU", "QA"):
         return "q%s%d" % (sym[1].lower(), 2 * (pos + 1))
+    if sym in ("XS", "XV"):
+        return "x%s%d" % (sym[1].lower(), 2 * (pos + 1))
+    if sym == "YS":
+        return "ys%d" % (2 * (pos + 1))
+    if sym == "SX":
+        return "S"
     return sym
 
 
@@ -522,8 +559,10 @@ def random_ops(rng, n, tracking, pushsup, illegal_end):
             nlev = 1
         elif r < 0.70:
             toks.append("s")
-        elif r < 0.90:
+        elif r < 0.82:
             toks.append("q%s%d" % (rng.choice("svua"), f))
+        elif r < 0.90:
+            toks.append(rng.choice(["x%s%d" % (rng.choice("svua"), f), "y%s%d" % (rng.choice("svua"), f), "S"]))
         elif tracking:
             toks.append("g")
         else:
@@ -677,8 +716,13 @@ def _compare_scripts(cases, impl, model, res):
 
 
 def op_kind(t):
+    q = {"s": "is_sat", "v": "is_valid", "u": "is_unsat", "a": "solve_assumptions"}.get(t[1:2], "?")
     return {"a": "add_assertion", "u": "push", "p": "pop", "r": "reset_assertions", "s": "solve", "g": "assertions",
-            "q": {"s": "is_sat", "v": "is_valid", "u": "is_unsat", "a": "solve_assumptions"}.get(t[1:2], "?")}[t[0]]
+            "q": q, "x": q + "!unknown", "y": q + "!assert", "S": "solve!unknown"}[t[0]]
+
+
+def is_oneshot(t):
+    return t[0] in "qxy" and t[1] != "a"
 
 
 def check_tracks(cfg, who, cases, res, search, use_lean=True, batch=None):
@@ -730,7 +774,7 @@ def _compare_tracks(cfg, who, cases, impl, model, res, search):
                 break
             o.step(tt)
             lives.append(ids(o.live()))
-            if t[0] == "q" and t[1] != "a" and i + 1 < len(toks):
+            if is_oneshot(t) and i + 1 < len(toks):
                 oneshot_followed = True
         res.states.add(repr(o.levels))
         if legal and (o.removed or oneshot_followed):
@@ -760,10 +804,13 @@ def _compare_tracks(cfg, who, cases, impl, model, res, search):
         if bad is None:
             # native checks: parse the last-check field of each snapshot where the op ran a check
             for i, t in enumerate(toks):
-                if t[0] == "s" or t[0] == "q":
-                    seen = out[i].rsplit("/", 1)[1]
+                if t[0] in "xyS" and not out[i].endswith("!") and not (t[0] == "y" and (t[1] == "a" or cfg[8] == "0")):
+                    bad = (i, "the exception of the native call did not reach the caller")
+                    break
+                if t[0] in "sSqx" or (t[0] == "y" and (t[1] == "a" or cfg[8] == "0")):
+                    seen = out[i].rstrip("!").rsplit("/", 1)[1]
                     exp_l = [int(x) for x in lives[i].split(",")] if lives[i] != "-" else []
-                    if t[0] == "q":
+                    if t[0] in "qxy":
                         f = int(t[2:])
                         exp_l = exp_l + [f + 1 if t[1] == "v" else f]
                     if seen != ids(exp_l):
@@ -779,7 +826,7 @@ def _compare_tracks(cfg, who, cases, impl, model, res, search):
                 bad = (i - 1, "a following solve() runs on [%s], live = [%s]" % (ids(final.get("check", [])), lives[-1] if lives else "-"))
         if bad is not None:
             i, msg = bad
-            prev = next((op_kind(t) for t in reversed(toks[:i + 1]) if t[0] == "q" and t[1] != "a"), "none")
+            prev = next((op_kind(t) for t in reversed(toks[:i + 1]) if is_oneshot(t)), "none")
             res.s.append(({"oracle": "assert-stack", "part": "solver", "placement": cfg, "call": op_kind(toks[i]) if i < len(toks) else "end",
                            "pending_from": prev},
                           "%s (placement of %s): step %d `%s`: %s" % ("solver", who, i, toks[i] if i < len(toks) else "end", msg),
@@ -842,7 +889,7 @@ def weight(task):
     if k == "script_enum":
         return 3 * 13 ** (task["depth"] - len(task["prefix"]))
     if k == "track_enum":
-        return 2 * (12 if task.get("drop") else 14) ** (task["depth"] - len(task["prefix"]))
+        return 2 * (12 if task.get("drop") else 18) ** (task["depth"] - len(task["prefix"]))
     return 25 * task["n"]
 
 
@@ -1178,7 +1225,7 @@ def _native_compare(ctx, exe, seqs, solvers):
                     nq += 1
                 ctx.evaluations += 1
                 if obs[i] != exp:
-                    prev = next((op_kind(x) for x in reversed(toks[:i]) if x[0] == "q" and x[1] != "a"), "none")
+                    prev = next((op_kind(x) for x in reversed(toks[:i]) if is_oneshot(x)), "none")
                     ctx.report_s({"oracle": "assert-stack", "part": "native", "solver": name, "call": op_kind(t),
                                   "pending_from": prev},
                                  "real %s wrapper: step %d `%s` of `%s` answers %r, expected %r (live assertions %s)"
@@ -1211,20 +1258,28 @@ def plan(ctx, placements):
         if p["concrete"] and p["usesBaseIsSat"]:
             by_cfg.setdefault(cfg_bits(p), []).append(n.rsplit(".", 1)[1])
     tdepth = 4 if quick else 5
+    info_depths = {}
     zdepth = 4 if quick else 6          # thorough: the placement of Z3Solver / MathSAT5Solver / BoolectorSolver goes one deeper
     for cfg, who in sorted(by_cfg.items()):
         w = "+".join(who)
         alpha = track_alpha(cfg)
         deep = "Z3Solver" in who and zdepth > tdepth
+        # Portfolio's placement differs from Z3Solver's only in `_reset_assertions` / no native stack: one level less
+        d = tdepth if (quick or "Portfolio" not in who) else tdepth - 1
+        info_depths[cfg] = d
         for a in alpha:
-            tasks.append({"kind": "track_enum", "cfg": cfg, "who": w, "depth": tdepth, "prefix": [a], "search": True})
+            if d >= 5:
+                for b in alpha:
+                    tasks.append({"kind": "track_enum", "cfg": cfg, "who": w, "depth": d, "prefix": [a, b], "search": True})
+            else:
+                tasks.append({"kind": "track_enum", "cfg": cfg, "who": w, "depth": d, "prefix": [a], "search": True})
             if deep:
                 # one level deeper without the no-op symbols push 0 / pop 0 (they are covered up to `tdepth`)
                 for b in alpha:
                     tasks.append({"kind": "track_enum", "cfg": cfg, "who": w, "depth": zdepth, "prefix": [a, b],
-                                  "search": True, "drop": ["u0", "p0"]})
+                                  "search": True, "drop": ["u0", "p0"] + FAILING})
         # sequences of length 1 (and, for 2-symbol prefixes, those whose second call is already illegal)
-        tasks.append({"kind": "track_enum", "cfg": cfg, "who": w, "depth": 1, "prefix": [], "search": True})
+        tasks.append({"kind": "track_enum", "cfg": cfg, "who": w, "depth": 2 if d >= 5 else 1, "prefix": [], "search": True})
         for j in range(2 if quick else 8):
             tasks.append({"kind": "track_random", "cfg": cfg, "who": w, "seed": sd + 100 + j,
                           "n": 600 if quick else 2500, "search": True})
@@ -1242,8 +1297,8 @@ def plan(ctx, placements):
                       "search": False})
         if not quick:
             for a in track_alpha(cfg):
-                tasks.append({"kind": "track_enum", "cfg": cfg, "who": "synthetic", "depth": 4, "prefix": [a], "search": False})
-    return tasks, {"script_depth": sdepth, "track_depth": tdepth, "z3_depth": zdepth, "placements_searched": {c: w for c, w in by_cfg.items()}}
+                tasks.append({"kind": "track_enum", "cfg": cfg, "who": "synthetic", "depth": 3, "prefix": [a], "search": False})
+    return tasks, {"script_depth": sdepth, "track_depth": tdepth, "z3_depth": zdepth, "depths": info_depths, "placements_searched": {c: w for c, w in by_cfg.items()}}
 
 
 def run(ctx):
@@ -1271,11 +1326,12 @@ def run(ctx):
         native_check(ctx)
     ctx.extra["exhaustive"] = True
     ctx.extra["exhaustive_scope"] = ("scripts: every sequence over the 13-symbol alphabet up to length %d; solvers: every sequence "
-                                     "over the 14-symbol alphabet up to length %d for each placement in `placements_searched`"
+                                     "over the 18-symbol alphabet up to length %d (see `exhaustive_depth_per_placement`) for each placement in `placements_searched`"
                                      % (info["script_depth"], info["track_depth"])) + (
-        "; Z3Solver placement: additionally length %d over the alphabet without push 0 / pop 0" % info["z3_depth"]
+        "; Z3Solver placement: additionally length %d over the 12 symbols without push 0 / pop 0 / raising queries" % info["z3_depth"]
         if info["z3_depth"] > info["track_depth"] else "")
     ctx.extra["placements_searched"] = info["placements_searched"]
+    ctx.extra["exhaustive_depth_per_placement"] = info["depths"]
     ctx.extra["transitions"] = agg.get("steps", 0)
     ctx.extra["states"] = len(agg.get("states", ()))
     ctx.extra["work_units"] = len(tasks)
